@@ -269,9 +269,52 @@ pub fn text_of(key: &str) -> Option<String> {
     }
 }
 
-pub struct C11;
+/// `image_of_reader`: the same text space judged as C05's second part - every text the reader accepts yields a
+/// library that must be written without error and read back equal (panics are left to C11 itself).
+pub struct C11 {
+    pub image_of_reader: bool,
+}
+
+thread_local! {
+    static SEEN_LIBS: std::cell::RefCell<std::collections::HashSet<u64>> = std::cell::RefCell::new(std::collections::HashSet::new());
+}
 
 impl C11 {
+    /// C05 over the image of the reader on this text space
+    fn check_image(&self, key: &str, text: &str, hashed: bool, cx: &mut Cx) {
+        cx.stats.executions += 1;
+        cx.stats.transitions += 1;
+        match open_text(cx, text, "in.lef") {
+            Opened::Panic(_) => cx.outcome("open-panic (C11's subject)"),
+            Opened::Err(..) => cx.outcome("err"),
+            Opened::Ok(lib) => {
+                let h = hash_bytes(format!("{lib:?}").as_bytes());
+                if hashed {
+                    cx.state(h, !lib.macros.is_empty() || !lib.sites.is_empty() || !lib.vias.is_empty());
+                }
+                if !SEEN_LIBS.with(|s| s.borrow_mut().insert(h)) {
+                    cx.outcome("ok/library-already-judged");
+                    return;
+                }
+                cx.stats.evaluations += 1;
+                match super::c05::round_trip_pub(&lib, cx) {
+                    Ok(()) => cx.outcome("ok/reopen-ok"),
+                    Err((sig, what, written)) => {
+                        cx.outcome(&format!("ok/{sig}"));
+                        let f = super::c05::attribute_pub(&lib, cx);
+                        cx.fail(
+                            key,
+                            &format!("image-{sig}"),
+                            f,
+                            || format!("{sig} for the library read from a faulted text: {what}"),
+                            || json!({"text": text, "library": truncate(&format!("{lib:?}"), 3000), "what": what, "written_text": written}),
+                        );
+                    }
+                }
+            }
+        }
+    }
+
     fn panic_finding(&self, text: &str, route: u8, cx: &mut Cx) -> Option<&'static str> {
         // the recorded class: a multi-byte character in the text and a panic; named only if the same text
         // with every multi-byte character replaced by one ASCII character does not panic on the same route
@@ -287,6 +330,9 @@ impl C11 {
     }
 
     fn check_text(&self, key: &str, text: &str, hashed: bool, cx: &mut Cx) {
+        if self.image_of_reader {
+            return self.check_image(key, text, hashed, cx);
+        }
         cx.stats.executions += 1;
         cx.stats.transitions += 1;
         if hashed {
@@ -344,9 +390,21 @@ const CHUNK: usize = 6;
 
 impl Driver for C11 {
     fn id(&self) -> &'static str {
-        "C11"
+        if self.image_of_reader {
+            "C05"
+        } else {
+            "C11"
+        }
     }
     fn describe(&self, tier: Tier) -> Describe {
+        if self.image_of_reader {
+            let mut d = C11 { image_of_reader: false }.describe(tier);
+            d.rule = format!("the image of the reader beyond generated texts: every text of C11's fault space is read; every *distinct library* the reader returns (distinct by its Debug rendering) must be written by to_string without error and read back equal. The text space: {}", d.rule);
+            d.assumptions = vec!["panics and hangs on these texts are C11's subject and only counted here".into()];
+            d.excluded = vec![];
+            d.technique = "exhaustive single-fault enumeration over token and character positions of base texts + bounded-depth token sequences per parser context; every accepted text's library written and re-read by the real writer and reader".into();
+            return d;
+        }
         let bs = bases();
         let ntok: usize = bs.iter().map(|b| b.toks.len()).sum();
         let nchar: usize = bs.iter().map(|b| b.text.chars().count()).sum();
@@ -524,6 +582,10 @@ impl Driver for C11 {
         })
     }
     fn guards(&self, tier: Tier, stats: &Stats, _distinct: u64) -> Result<(), String> {
+        if self.image_of_reader {
+            require_tags(stats, &["fault:prefix", "fault:token", "fault:nonascii", "fault:sequence"])?;
+            return require_outcomes(stats, &["err", "ok/reopen-ok"]);
+        }
         let mut tags = vec![
             "fault:prefix", "fault:token", "fault:nonascii", "fault:sequence", "token:word", "token:string", "token:semicolon",
             "token:comment", "nonascii:in-string", "nonascii:in-comment", "nonascii:in-word",
@@ -536,5 +598,5 @@ impl Driver for C11 {
 }
 
 pub fn driver() -> Box<dyn Driver> {
-    Box::new(Multi { id: "C11", parts: vec![("faults", Box::new(C11)), ("linear", Box::new(super::c11lin::C11Lin))] })
+    Box::new(Multi { id: "C11", parts: vec![("faults", Box::new(C11 { image_of_reader: false })), ("linear", Box::new(super::c11lin::C11Lin))] })
 }
